@@ -143,6 +143,25 @@ func NewKeyRing(r *mon.Rand) (*KeyRing, error) {
 	return kr, nil
 }
 
+// OddRSA returns signer/verifier pairs for RSA keys whose modulus length is
+// not a multiple of 8 bits (2049 and 2055 bits), for alg.
+func OddRSA(alg cose.Algorithm) ([]*AlgKey, error) {
+	var out []*AlgKey
+	for _, bits := range []int{2049, 2055} {
+		p := testkeys.RSA(bits)
+		k := &AlgKey{Alg: alg, Name: fmt.Sprintf("%v-rsa%d", alg, bits), Priv: p, Pub: &p.PublicKey}
+		var err error
+		if k.Signer, err = cose.NewSigner(alg, p); err != nil {
+			return nil, err
+		}
+		if k.Verifier, err = cose.NewVerifier(alg, &p.PublicKey); err != nil {
+			return nil, err
+		}
+		out = append(out, k)
+	}
+	return out, nil
+}
+
 // Pick returns a pseudo-random key of the ring; cheap algorithms are
 // favoured (RSA about one time in eight) so that volume stays high.
 func (kr *KeyRing) Pick(r *mon.Rand) *AlgKey {
